@@ -112,7 +112,8 @@ theorem two_states_same_epoch (E : RealHEnv F D n) (hL : ∀ d, Laws (E.at d)) (
   exact ⟨(heap_path_independent E hL h a d F0 xa Ca hOa hda hfa hia ops sa tsa _ hta).2,
          (heap_path_independent E hL h b d F0 xb Cb hOb hdb hfb hib ops sb tsb _ htb).2⟩
 
-/-- **An array derived by numpy and its source are independent**: after `e = g(c)` (fresh output
+/-- **An array derived by numpy and its source are independent** (targets of any kind, regular
+frames included since /repo c5f38c8): after `e = g(c)` (fresh output
 buffer) run any frame assignments on `e` and on other separate objects; the source `c` is exactly
 what it was (tag, values), whatever happened to `e` — and the other way round `e` keeps the values
 numpy computed and the tag it was born with while `c` moves. -/
@@ -147,6 +148,38 @@ theorem derived_independent (E : RealHEnv F D n) (h : Heap F D (Matrix n n ℝ) 
     have ht : targetsOf (opsC.map (fun t => (i, t))) h.nobj = [] := by
       simp [targetsOf, hne.symm]
     rw [hp, ht, List.foldl_nil, v]
+
+/-- **A covariance derived by numpy converts like any other** (since /repo c5f38c8
+`__array_finalize__` carries `_orb_frame`): let `c` be a covariance reachable from
+`Cov(sv, C0, sv.frame)` and `e = k * c` (fresh buffer: also `c * k`, `c / k`, `-c`, `c + c.copy()`,
+copies by numpy with `k = 1`).  After ANY interleaving of frame assignments — to `e`, to `c`, to
+other separate objects — in which the targets addressed to `e` are `ts` followed by `t`, regular
+frame or QSW/TNW, `e` is tagged `t` and holds `k · Mt C0 Mtᵀ` with `Mt` of the state of `c`. -/
+theorem derived_path_independent (E : RealHEnv F D n) (hL : ∀ d, Laws (E.at d)) (h : Heap F D (Matrix n n ℝ) (n → ℝ)) (hw : WF h)
+    (i : Nat) (hi : i < h.nobj) (d : D) (F0 : F) (x0 : n → ℝ) (C0 : Matrix n n ℝ) (hO : LocOrth (E.at d) x0)
+    (hd : (h.view E.henv i).date = d) (hf : (h.view E.henv i).orbFrame = some F0)
+    (hinv : Inv (E.at d) F0 x0 C0 (h.view E.henv i).st) (k : ℝ)
+    (ops : List (Nat × Tag F)) (hsep : ∀ op ∈ ops, op.1 < h.nobj)
+    (ts : List (Tag F)) (t : Tag F) (hts : targetsOf ops h.nobj = ts ++ [t]) :
+    let h' := h.derive i (k • (h.view E.henv i).mat)
+    ((h'.hops E.henv ops).view E.henv h.nobj).tag = t ∧
+    ((h'.hops E.henv ops).view E.henv h.nobj).mat = k • (Mt (E.at d) F0 x0 t * C0 * (Mt (E.at d) F0 x0 t)ᵀ) := by
+  intro h'
+  obtain ⟨_, _, _, sep, v⟩ := derive_spec E.henv h hw i hi (k • (h.view E.henv i).mat)
+  have hinv' : Inv (E.at d) F0 x0 (k • C0) (h'.view E.henv h.nobj).st := by
+    rw [v]
+    refine ⟨hinv.orbFrame, hinv.orbCur, hinv.orb, ?_⟩
+    show k • (h.view E.henv i).mat = _
+    have hm : (h.view E.henv i).mat = _ := hinv.mat
+    rw [hm]
+    show _ = Mt (E.at d) F0 x0 (h.view E.henv i).tag * (k • C0) * (Mt (E.at d) F0 x0 (h.view E.henv i).tag)ᵀ
+    simp only [Matrix.mul_smul, Matrix.smul_mul]
+    rfl
+  have := heap_path_independent E hL h' h.nobj d F0 x0 (k • C0) hO (by rw [v]; exact hd) (by rw [v]; exact hf) hinv' ops
+    (fun op hm _ => sep op.1 (hsep op hm) |> fun s => ⟨Ne.symm s.1, Ne.symm s.2⟩) ts t hts
+  refine ⟨this.1, ?_⟩
+  rw [this.2]
+  simp only [Matrix.mul_smul, Matrix.smul_mul]
 
 /-! ## Non-vacuity -/
 
